@@ -164,7 +164,13 @@ def gen_grammar(r, nnt=None, nt_=None, err_prob=0.25, maxrules=3, strict=None, w
         elif shape < 0.28 and len(nts) >= 2:
             a, b = nts[0], nts[1]
             rules += [(a, [b, a, r.choice(tn)]), (b, [])]          # hidden left recursion
-        elif shape < 0.34:
+        elif shape < 0.40 and len(nts) >= 3:
+            # nullable chain: nullability has to travel through several nonterminals
+            ch = nts[:]; r.shuffle(ch)
+            for x, y in zip(ch, ch[1:]): rules.append((x, [y]))
+            rules.append((ch[-1], []))
+            rules.append((nts[0], [ch[0], r.choice(tn), ch[0]]))
+        elif shape < 0.46:
             a = r.choice(nts); t = r.choice(tn)
             rules += [(a, [t]), (a, [t])]                          # identical right-hand sides
         seen = set(); out = []
@@ -391,11 +397,49 @@ def gen_def_grammar(r):
     return Grammar(terms, rules, r.random() < 0.5)
 
 
+def gen_chain_def(r):
+    """definitions whose analysis needs several fixpoint passes: facts (nullable, productive,
+    reachable, looping) must travel along a chain of nonterminals against or along the order in
+    which the symbols are numbered; optionally a loop / defect that exists only through the
+    fact at the far end of the chain"""
+    k = r.randint(3, 7)
+    names = ['N%d' % i for i in range(1, k + 1)]
+    order = r.choice(['down', 'up', 'mixed'])
+    terms = [('a', 97), ('b', 98)]
+    rules = []
+    kind = r.choice(['nullable', 'nullable', 'productive', 'reachable'])
+    chain = []
+    for i in range(k):
+        nxt = names[i + 1] if i + 1 < k else None
+        alts = []
+        if kind == 'nullable':
+            alts.append(['a'] if r.random() < 0.8 else ['a', 'b'])
+            alts.append([nxt] if nxt else [])
+            if nxt and r.random() < 0.3: alts.append([nxt, nxt])
+        elif kind == 'productive':
+            alts.append([nxt, 'a'] if nxt else (['a'] if r.random() < 0.7 else [names[i]]))
+        else:
+            alts.append(['a', nxt] if nxt else ['b'])
+        for rhs in alts: chain.append((names[i], None, 0, rhs, None))
+    if order == 'up': chain = chain[::-1]
+    elif order == 'mixed': r.shuffle(chain)
+    top = r.choice([
+        [('S', None, 0, ['N1'], None), ('S', None, 0, ['S', 'N1'], None)],          # loop only if N1 is nullable
+        [('S', None, 0, ['N1'], None), ('S', None, 0, ['N1', 'S', 'N1'], None)],
+        [('S', None, 0, ['N1', 'a'], None)],
+        [('S', None, 0, ['a', 'N1'], None), ('S', None, 0, ['N1', 'N1'], None)],
+        [('S', None, 0, ['N1'], None), ('N%d' % k, None, 0, ['S'], None)],           # loop through the whole chain
+    ])
+    rules = top + chain if r.random() < 0.7 else top[:1] + chain + top[1:]
+    if r.random() < 0.2: rules.append(('U', None, 0, ['a'], None))                    # unreachable
+    return Grammar(terms, rules, r.random() < 0.5)
+
+
 def gen_def_cases(seed, count):
     r = random.Random(seed)
     cases = []
     for i in range(count):
-        g = gen_def_grammar(r)
+        g = gen_chain_def(r) if r.random() < 0.25 else gen_def_grammar(r)
         c = ['case C10-%d-%d def' % (seed, i)] + g.text(0)
         c += ['op 1 create 0', 'op 2 def 0 0', 'op 3 err 0', 'op 4 set 0 rec 0', 'op 5 parse 0 user user 1', 'op 6 err 0', 'op 7 free 0', 'end']
         cases.append(c)
